@@ -641,6 +641,43 @@ fn main() {
     if outcome_classes.len() < 8 {
         vacuous(&format!("vacuous exploration: outcome classes {outcome_classes:?}"));
     }
+    // the creating thread has *exited* before the original is finished elsewhere: whatever stood for
+    // the identity of that thread (a stack address, a slot of thread-local storage) may have been
+    // handed to the new thread - it is a different thread all the same
+    let mut exited_creator_cells = 0;
+    for how in 0..3usize {
+        for round in 0..6usize {
+            let u = std::thread::spawn(|| Unimock::new(AMock::a.each_call(matching!(_)).returns(1u32)))
+                .join()
+                .unwrap_or_else(|_| machinery("harness: construction on a helper thread failed"));
+            let got = std::thread::spawn(move || {
+                let _ = <Unimock as A>::a(&u, 0);
+                catch(move || match how {
+                    0 => drop(u),
+                    1 => u.verify(),
+                    _ => {
+                        let _ = std::process::Termination::report(u);
+                    }
+                })
+            })
+            .join()
+            .unwrap_or_else(|_| machinery("harness: the finishing thread died"));
+            exited_creator_cells += 1;
+            traces += 1;
+            let ok = matches!(&got, Err(msg) if msg.contains("destroyed on a different thread"));
+            if !ok {
+                ctx.violation(
+                    "exited-creator-thread",
+                    &format!(
+                        "the original was created on a thread that has exited and finished by {} on another thread (round {round}): expected the refusal about a different thread, observed {got:?}",
+                        ["drop", "verify()", "report()"][how]
+                    ),
+                    J::obj().set("exited_creator", how),
+                );
+                break;
+            }
+        }
+    }
     let mut cov = J::obj()
         .set("states", seen.len())
         .set("transitions", transitions)
@@ -648,6 +685,7 @@ fn main() {
         .set("exhaustive", !ctx.stopped())
         .set("depth", depth)
         .set("differential_probes", probes)
+        .set("exited_creator_thread_cells", exited_creator_cells)
         .set("differential_probe_rule", format!("every history of length <= {probe_levels} that ends in an already known model state is extended by every single enabled event, those of length <= {probe2_levels} also by every pair of events"))
         .set("levels", J::Arr(levels))
         .set("frontier_states_left_unexpanded_at_bound", frontier.len())
